@@ -405,3 +405,13 @@ def partial_or_cases(shard, nshards, tier):
                 continue
             yield name, {"defn": ps.to_json(ast), "k": 1, "pick": list(sub),
                          "sched": idx}
+
+
+def fork_shape_cases(seed, shard, nshards):
+    """The exhaustive nested-fork family of gen.fork_shapes() (complete
+    sets), the slice of one shard."""
+    for i, (tag, ast) in enumerate(gen.fork_shapes()):
+        if i % nshards != shard:
+            continue
+        yield tag, {"defn": ps.to_json(ast), "k": 1, "pick": None,
+                    "sched": seed * 1000 + i}
